@@ -74,7 +74,16 @@ class Inliner:
         if isinstance(fn, ast.Attribute) and isinstance(fn.value, ast.Name) and caller.cls is not None:
             if fn.value.id in ("self", "cls", caller.cls.qual.split(".")[-1]):
                 key = f"{caller.module.name}:{caller.cls.qual}.{fn.attr}"
-                return cands.get(key)
+                if key in cands:
+                    return cands[key]
+                # a helper inherited from a base class of the same module (not overridden: see candidates())
+                for k in self.tree.mro(caller.cls)[1:]:
+                    key = f"{k.module.name}:{k.qual}.{fn.attr}"
+                    if key in cands and k.module is caller.module:
+                        return cands[key]
+                    if fn.attr in k.methods:
+                        break
+                return None
         if isinstance(fn, ast.Name):
             key = f"{caller.module.name}:{fn.id}"
             c = cands.get(key)
@@ -342,11 +351,28 @@ class Inliner:
         for x, d in zip(a.kwonlyargs, a.kw_defaults):
             if d is not None:
                 defaults[x.arg] = d
+        # in/out parameters: `a, b = helper(a, b, ...)` where the helper ends with `return a', b'` (its parameters bound to a, b):
+        # the parameter *is* the caller's variable
+        inout = {}
+        if isinstance(s, ast.Assign) and len(s.targets) == 1 and isinstance(s.targets[0], (ast.Tuple, ast.Name)) and s.value is c:
+            tgt = s.targets[0].elts if isinstance(s.targets[0], ast.Tuple) else [s.targets[0]]
+            gbody = [x for x in g.node.body]
+            rets_ = [x for b in gbody for x in ast.walk(b) if isinstance(x, ast.Return)]
+            if len(rets_) == 1 and gbody and gbody[-1] is rets_[0] and rets_[0].value is not None:
+                rv = rets_[0].value.elts if isinstance(rets_[0].value, ast.Tuple) else [rets_[0].value]
+                if len(rv) == len(tgt) and all(isinstance(x, ast.Name) for x in list(rv) + list(tgt)):
+                    for r_, t_ in zip(rv, tgt):
+                        a_ = binds.get(r_.id)
+                        if r_.id in params + kwonly and isinstance(a_, ast.Name) and a_.id == t_.id:
+                            inout[r_.id] = t_.id
         pre = []
         for p in params + kwonly:
             v = binds.get(p, defaults.get(p))
             if v is None:
                 return None
+            if p in inout:
+                rename[p] = inout[p]
+                continue
             pure = isinstance(v, (ast.Name, ast.Constant)) or (isinstance(v, ast.Attribute) and _pure_chain(v))
             if pure and p not in assigned_in_g and not (isinstance(v, ast.Name) and v.id in locals_ and rename.get(v.id) == v.id):
                 subst[p] = v
